@@ -189,6 +189,62 @@ static void handle(size_t nw, char **w) {
 		} else printf("ERR");
 		drop_entropy(); free(pc);
 	}
+	else if (!strcmp(w[0], "keygen") && nw == 2) {
+		uint8_t b[32], pb[64];
+		install_entropy(w[1]);
+		if (sm2_key_generate(&key) == 1) {
+			sm2_z256_to_bytes(key.private_key, b); puthex(b, 32); putchar(' ');
+			sm2_z256_point_to_bytes(&key.public_key, pb); puthex(pb, 64); printf(" %04lx", ent.draws);
+		} else printf("ERR");
+		drop_entropy();
+	}
+	else if (!strcmp(w[0], "setpriv") && nw == 2) {
+		uint8_t pb[64];
+		if (key_from_d(&key, w[1]) == 1) { sm2_z256_point_to_bytes(&key.public_key, pb); puthex(pb, 64); } else printf("ERR");
+	}
+	else if (!strcmp(w[0], "fastkey") && nw == 2) {
+		/* sm2_fast_sign_compute_key on a key object whose private_key field is set directly */
+		buf_t d = hex2buf(w[1]); sm2_z256_t fast; uint8_t b[32];
+		memset(&key, 0, sizeof(key)); sm2_z256_from_bytes(key.private_key, d.p);
+		if (sm2_fast_sign_compute_key(&key, fast) == 1) { sm2_z256_to_bytes(fast, b); puthex(b, 32); } else printf("ERR");
+		free(d.p);
+	}
+	else if (!strcmp(w[0], "pkdigest") && nw == 2) {
+		uint8_t *dg = malloc(32);
+		if (key_from_P(&key, w[1]) != 1) printf("ERR key");
+		else if (sm2_public_key_digest(&key, dg) == 1) puthex(dg, 32); else printf("ERR");
+		free(dg);
+	}
+	else if (!strcmp(w[0], "pkequ") && nw == 3) {
+		SM2_KEY k2;
+		if (key_from_P(&key, w[1]) != 1 || key_from_P(&k2, w[2]) != 1) printf("ERR key");
+		else printf("%d", sm2_public_key_equ(&key, &k2));
+	}
+	else if (!strcmp(w[0], "sigprint") && nw == 2) {
+		buf_t a = hex2buf(w[1]); FILE *fp = fopen("/dev/null", "w");
+		printf(sm2_signature_print(fp, 0, 0, "sig", a.p, a.n) == 1 ? "OK" : "ERR");
+		fclose(fp); free(a.p);
+	}
+	else if (!strcmp(w[0], "vctxr") && nw == 5) {
+		/* vctxr P id idlen rounds ; round = chunks@sig ; one SM2_VERIFY_CTX, reset between rounds */
+		buf_t idb; char *id = id_buf(w[2], &idb); size_t idlen = strtoul(w[3], NULL, 10); int first = 1;
+		SM2_VERIFY_CTX *ctx = malloc(sizeof(*ctx)); char *save = NULL, *rd;
+		if (key_from_P(&key, w[1]) != 1) { printf("ERR key"); free(idb.p); free(ctx); return; }
+		no_entropy();
+		if (sm2_verify_init(ctx, &key, id, idlen) != 1) { printf("ERR"); free(idb.p); free(ctx); return; }
+		for (rd = strtok_r(w[4], ";", &save); rd; rd = strtok_r(NULL, ";", &save)) {
+			char *at = strchr(rd, '@'); size_t k, i; int ok = 1; buf_t sg;
+			*at = 0; sg = hex2buf(at + 1);
+			k = split_chunks(rd, ch, MAXC);
+			for (i = 0; i < k; i++) if (sm2_verify_update(ctx, ch[i].p, ch[i].n) != 1) ok = 0;
+			if (ok && sm2_verify_finish(ctx, sg.p, sg.n) != 1) ok = 0;
+			if (!first) putchar(','); first = 0;
+			printf(ok ? "OK" : "ERR");
+			sm2_verify_reset(ctx);
+			free_chunks(ch, k); free(sg.p);
+		}
+		free(idb.p); free(ctx);
+	}
 	else printf("ERR unknown-op");
 }
 
